@@ -7,9 +7,11 @@ import (
 )
 
 // State is one abstract state: a conjunction of linear constraints.
-//   def:  solved equalities  atom = Lin over base atoms
-//   ineq: Lin >= 0 over base atoms
-//   cong: congruences of base atoms
+//
+//	def:  solved equalities  atom = Lin over base atoms
+//	ineq: Lin >= 0 over base atoms
+//	cong: congruences of base atoms
+//
 // An atom without a def entry is a base atom (constrained only by ineq, cong
 // and its static range).
 type State struct {
@@ -19,12 +21,14 @@ type State struct {
 	cong map[Atom]Cong
 	dead bool
 	// non-numeric facts
-	nonnil  map[string]bool     // key of SSA value / cell -> known non-nil
-	isnil   map[string]bool     // known nil
-	ptr     map[string]Address  // pointer-typed values / cells -> abstract address
-	elemsNN map[string]bool     // slice values / cells: all elements are non-nil
-	corr    map[string]*Corr    // error values -> correlated states
-	ver     int64
+	nonnil    map[string]bool    // key of SSA value / cell -> known non-nil
+	isnil     map[string]bool    // known nil
+	ptr       map[string]Address // pointer-typed values / cells -> abstract address
+	elemsNN   map[string]bool    // slice values / cells: all elements are non-nil
+	corr      map[string]*Corr   // error values -> correlated states
+	ver       int64
+	dirty     map[Atom]int64   // memory cell atoms -> version of their last write
+	loopEnter map[string]int64 // loop id -> version when the loop was entered from outside
 }
 
 // Corr: states correlated with the nil-ness of an error value returned by a callee.
@@ -44,7 +48,7 @@ func (a Address) Key() string { return a.Obj + a.Path }
 
 func NewState(e *Engine) *State {
 	return &State{eng: e, def: map[Atom]Lin{}, cong: map[Atom]Cong{}, nonnil: map[string]bool{}, isnil: map[string]bool{},
-		ptr: map[string]Address{}, elemsNN: map[string]bool{}, corr: map[string]*Corr{}}
+		ptr: map[string]Address{}, elemsNN: map[string]bool{}, corr: map[string]*Corr{}, dirty: map[Atom]int64{}, loopEnter: map[string]int64{}}
 }
 
 func (s *State) Clone() *State {
@@ -71,6 +75,14 @@ func (s *State) Clone() *State {
 	}
 	for k, v := range s.corr {
 		n.corr[k] = v
+	}
+	n.dirty = make(map[Atom]int64, len(s.dirty))
+	for k, v := range s.dirty {
+		n.dirty[k] = v
+	}
+	n.loopEnter = make(map[string]int64, len(s.loopEnter))
+	for k, v := range s.loopEnter {
+		n.loopEnter[k] = v
 	}
 	return n
 }
@@ -372,21 +384,33 @@ func (s *State) Bind(a Atom, e Lin) {
 	if s.dead {
 		return
 	}
+	if s.eng.isCell[a] {
+		s.dirty[a] = s.eng.nextVer()
+	}
 	e = s.Subst(e)
+	if !e.Bad && e.Coef(a) != 0 {
+		// the new value depends on the old one (x := x - k on a base atom)
+		s.AssignParallel([]Atom{a}, []Lin{e})
+		return
+	}
 	s.Forget(a)
 	if e.Bad {
 		return
 	}
 	s.touch()
-	if e.Coef(a) != 0 {
-		// self-reference after substitution cannot happen (a was forgotten), guard anyway
-		return
-	}
 	s.def[a] = e
 }
 
 // Forget removes all information about atom a (a becomes an unconstrained base atom).
+var DebugForget func(name string)
+
 func (s *State) Forget(a Atom) {
+	if s.eng.isCell[a] {
+		s.dirty[a] = s.eng.nextVer()
+	}
+	if DebugForget != nil {
+		DebugForget(s.eng.atomName(a))
+	}
 	s.touch()
 	if _, ok := s.def[a]; ok {
 		delete(s.def, a)
@@ -503,12 +527,17 @@ func (s *State) String() string {
 	return strings.Join(parts, "; ")
 }
 
-// Feasible re-checks satisfiability (used to prune branches).
+// Feasible re-checks satisfiability (used to prune branches). Only the
+// constraints connected to the most recently added one are examined.
 func (s *State) Feasible() bool {
 	if s.dead {
 		return false
 	}
-	if !feasible(s.ineq, s) {
+	if len(s.ineq) == 0 {
+		return true
+	}
+	last := s.ineq[len(s.ineq)-1]
+	if !feasible(coneOf(s.ineq, last), s) {
 		s.dead = true
 		return false
 	}
